@@ -6,6 +6,7 @@ import (
 	"context"
 	"encoding/json"
 	"fmt"
+	"go.opencensus.io/trace"
 	"net"
 	"net/http"
 	"reflect"
@@ -366,4 +367,13 @@ func (s *Server) Stop() {
 func jsonOf(v interface{}) string {
 	b, _ := json.Marshal(v)
 	return string(b)
+}
+
+// Sampled turns opencensus trace sampling on for the rest of this run (every
+// call then carries a sampled span context in its request meta) and returns the
+// function that restores the default sampler. The setting is process-global;
+// runs of one worker process are sequential.
+func Sampled() func() {
+	trace.ApplyConfig(trace.Config{DefaultSampler: trace.AlwaysSample()})
+	return func() { trace.ApplyConfig(trace.Config{DefaultSampler: trace.ProbabilitySampler(1e-4)}) }
 }
